@@ -253,7 +253,7 @@ def dag_spec(draw, max_stages: int = 6, allow: tuple[str, ...] = ("multi", "fail
     return {"name": "gen", "stages": stages}
 
 
-LOOP_SHAPES = ["self", "cycle2", "cycle3", "cycle4", "side", "fwd", "unknown", "two_routers", "mid_target"]
+LOOP_SHAPES = ["self", "cycle2", "cycle3", "cycle4", "side", "fwd", "unknown", "two_routers", "mid_target", "nested"]
 
 
 def make_loop(shape: str, j: int, max_jumps: int | None, tail: bool = True) -> dict[str, Any]:
@@ -289,6 +289,11 @@ def make_loop(shape: str, j: int, max_jumps: int | None, tail: bool = True) -> d
     elif shape == "mid_target":
         st_ = [stage("p", [], [ok(emit("k_p"))]), stage("a", ["p"], [ok(emit("k_a", "iter"))]), stage("r", ["a"], [jt("a")])]
         last = "r"
+    elif shape == "nested":
+        # inner loop x<-r1 inside an outer loop w<-r2: x is first a jump target, later re-armed as a mere downstream of w
+        st_ = [stage("w", [], [ok(emit("k_w", "iter"))]), stage("x", ["w"], [ok(emit("k_x", "iter"))]),
+               stage("r1", ["x"], [jt("x")]), stage("r2", ["r1"], [jt("w")])]
+        last = "r2"
     else:
         raise ValueError(shape)
     if tail and shape not in ("fwd",):
